@@ -274,7 +274,7 @@ def main(argv):
     rdir = os.environ.get("VERIF_REPLAY_DIR") or os.path.join(ROOT, "replays")
     os.makedirs(rdir, exist_ok=True)
     if failures:
-        shrink_budget = 20 if tier == "quick" else 120
+        shrink_budget = float(os.environ.get("VERIF_SHRINK_BUDGET") or (20 if tier == "quick" else 120))
         sjobs = [{"kind": "_shrink", "sig": s, "case": f["case"], "budget_s": shrink_budget}
                  for s, f in sorted(failures.items())][:16]
         shrunk = {}
